@@ -240,7 +240,7 @@ func (c *compiler) term(t Term) {
 	case "revert":
 		a.Push(memOutPtr).Op(ethvm.MLOAD).Push(memOutBase).Op(ethvm.REVERT)
 	case "invalid":
-		a.Op(ethvm.INVALID)
+		a.Op(ethvm.OpCode(0xfe))
 	case "selfdestruct":
 		c.pushAddr(t.Addr)
 		a.Op(ethvm.SELFDESTRUCT)
